@@ -269,8 +269,9 @@ class ContractionTree:
         # whether to keep track of dangling nodes/subgraphs
         self.track_childless = track_childless
         if self.track_childless:
-            # the set of dangling nodes
-            self.childless = oset([self.root])
+            # the set of dangling nodes (a single input is a leaf: it
+            # never gets children, so it must not wait for any)
+            self.childless = oset([self.root] if self.N > 1 else [])
 
         # running largest_intermediate and total flops
         self._track_flops = track_flops
